@@ -21,7 +21,7 @@ ASSUMPTIONS = [
     "the tokens a rule must receive are those of a parse of the same content by the same parser (this check is about delivery, C03 about the parse)",
 ]
 
-SPECIAL = ["", "a", "a\n", "\n", "a\nb", "a\nb\n", "#  a  \n\n* b\n+ c", "<!-- pyml disable-next-line md001-->", "<!-- pyml disable-next-line md019-->\n#  a\n", "# a\n\n### b\n", "- a\n\n\n- b\n", "a\tb\n"]
+SPECIAL = ["a\x0cb\n", "a\x0bb", "a\x85b\n", "a\u2028b\u2029c\n", "a\x1cb\x1dc\x1ed\n", "a\rb\n", "", "a", "a\n", "\n", "a\nb", "a\nb\n", "#  a  \n\n* b\n+ c", "<!-- pyml disable-next-line md001-->", "<!-- pyml disable-next-line md019-->\n#  a\n", "# a\n\n### b\n", "- a\n\n\n- b\n", "a\tb\n"]
 POOL = ["# a\n", "#  a  \n\n* b\n+ c", "a", "<!-- pyml disable-next-line md019-->\n#  a\n", ""]
 FIXCFG = [("nofix", False, 0), ("fix0", True, 0), ("fix3", True, 3), ("fix9", True, 9)]
 VARIANTS = ["".join(k + str(b) for k, b in zip("stlc", bits)) for bits in itertools.product([0, 1], repeat=4)]
@@ -145,6 +145,8 @@ def check_log(log, docs_sorted, mode, variant, fixcfg, enabled, final_contents):
     if mode in ("scan", "scan-stdin"):
         exp = []
         for text in docs_sorted:
+            # files are read with universal newlines: CR-LF and a lone CR end a line like LF
+            text = text.replace("\r\n", "\n").replace("\r", "\n")
             toks = _tokens(text)
             if toks is None:
                 return None, stats  # parse failure: C01/C15
